@@ -39,6 +39,7 @@ func c09(c *core.Ctx) map[string]interface{} {
 	r9mt(c)
 	r9tab(c, m)
 	r9ctor(c)
+	r9ctorLen(c)
 	r9acc(c)
 	// decoding what an independent encoder built needs the codec's own structure to be right
 	// (dispatch and Encode/Decode pairing rules of C08); the emulator's S-NSSAI IE (C17)
